@@ -1,7 +1,7 @@
 SPECIFICATION Spec
 CONSTANTS
   MaxLen = 2
-  CPs = {"Q", "G", "T"}
-  Errs = {"E2", "EG"}
+  CPs = {"Q", "G", "T", "QG"}
+  Errs = {"E2", "EG", "EQG"}
 INVARIANTS Emit ShortcutsEqualBasics OrderIndependent NoDupWhenValid CountPerInstr
 CHECK_DEADLOCK FALSE
